@@ -226,6 +226,12 @@ def run_check(P, tier, seed):
         assum = vlib.coq_print_assumptions(P.id, P.props_module, thms)
         ctx.checker_cmds.append("coqc: Print Assumptions for %d theorems of %s" % (len(thms), P.props_module))
 
+    # independent re-check of the compiled proofs (thorough tier only: 40 s and up)
+    if tier == "thorough" and ok_proofs:
+        assum["coqchk"] = _coqchk(P, ctx)
+        if assum["coqchk"].startswith("FAILED"):
+            broken_proof = {"broken": "coqchk", "error": assum["coqchk"], "targets": P.proof_targets}
+
     # 3. executors
     okx, logx = P.prepare(ctx)
     if not okx:
@@ -337,6 +343,38 @@ def run_check(P, tier, seed):
 
     _evidence(P, ctx, obligations, discharged, results, violations, assum, build_s, known_hits=known_hits)
     return 1 if violations else 0
+
+
+def _coqchk(P, ctx):
+    """coqchk -o on the property theorems; result cached by the hash of the .vo files involved."""
+    import hashlib
+    mods = []
+    files = []
+    for t in P.proof_targets:
+        rel = t[:-3]
+        parts = rel.split("/")
+        mods.append(("GZ." if parts[0] == "theories" else "GZgen.") + ".".join(parts[1:]))
+        vlib.coq_deps(rel + ".v", files)
+    h = hashlib.sha256()
+    for f in sorted(files):
+        try:
+            h.update(open(os.path.join(vlib.COQ, f[:-2] + ".vo"), "rb").read())
+        except OSError:
+            pass
+    cache_dir = os.path.join(vlib.ROOT, ".cache")
+    os.makedirs(cache_dir, exist_ok=True)
+    cpath = os.path.join(cache_dir, "coqchk_%s_%s.txt" % (P.id, h.hexdigest()[:16]))
+    cmd = ["coqchk", "-silent", "-o", "-Q", "theories", "GZ", "-Q", "gen", "GZgen"] + mods
+    ctx.checker_cmds.append(" ".join(cmd))
+    if os.path.exists(cpath):
+        return open(cpath).read()
+    rc, out = vlib.sh(["timeout", "3000"] + cmd, cwd=vlib.COQ, timeout=3100)
+    summary = out[out.find("CONTEXT SUMMARY"):] if "CONTEXT SUMMARY" in out else out[-1500:]
+    res = ("ok: " if rc == 0 else "FAILED rc=%d: " % rc) + " ".join(summary.split())
+    if rc == 0:
+        with open(cpath, "w") as f:
+            f.write(res)
+    return res
 
 
 def _coq_error(out):
